@@ -220,7 +220,7 @@ async fn c14_insert_orders<TC: Configuration>(cx: &mut Cx, r: &mut Rng, n: usize
 
 // ------------------------------------------------------------------ C20
 
-async fn c20_history<TC: Configuration>(cx: &mut Cx, r: &mut Rng) {
+async fn c20_history<TC: Configuration>(cx: &mut Cx, r: &mut Rng, dense: bool) {
     let cfg = cfg_name::<TC>();
     let labels = label_universe(r, 4);
     let db = Db::new();
@@ -233,7 +233,10 @@ async fn c20_history<TC: Configuration>(cx: &mut Cx, r: &mut Rng) {
     for e in 0..nep {
         let mut b = vec![];
         for (i, l) in labels.iter().enumerate() {
-            if i == 0 || r.chance(1, 2) {
+            // dense: the target changes in every epoch (version = epoch); otherwise its versions lag behind
+            // the epochs, which another label keeps advancing
+            let take = if dense { i == 0 || r.chance(1, 2) } else { (i == 0 && (e == 0 || e == 2 || e == 5)) || i == 1 || (i > 1 && r.chance(1, 2)) };
+            if take {
                 b.push((l.clone(), vec![e as u8 + 1, i as u8 + 1]));
             }
         }
@@ -353,8 +356,10 @@ pub fn run(seed: u64, tier: u32, which: &str) -> Cx {
         } else {
             let n = if tier == 0 { 1 } else { 8 };
             for _ in 0..n {
-                c20_history::<W>(&mut cx, &mut r).await;
-                c20_history::<E>(&mut cx, &mut r).await;
+                c20_history::<W>(&mut cx, &mut r, true).await;
+                c20_history::<E>(&mut cx, &mut r, true).await;
+                c20_history::<W>(&mut cx, &mut r, false).await;
+                c20_history::<E>(&mut cx, &mut r, false).await;
             }
         }
     });
